@@ -78,6 +78,7 @@ int main(int argc, char **argv) {
     else if (strcmp(dom, "match") == 0) dom_match();
     else if (strcmp(dom, "p01") == 0) dom_p01();
     else if (strcmp(dom, "p02") == 0) dom_p02();
+    else if (strcmp(dom, "p04") == 0) dom_p04();
     else if (strcmp(dom, "p05") == 0) dom_p05();
     else if (strcmp(dom, "p06") == 0) dom_p06();
     else if (strcmp(dom, "p08") == 0) dom_p08();
